@@ -741,6 +741,8 @@ ADJACENT_PAIRS = [
     ({"first_indent": 2.5, "left_indent": 6250.5}, {"first_indent": 2.5625, "left_indent": 0.5}),
     # an image file whose name contains the document suffix
     ({"bg_color": None, "bg_image": ["budget.numbers-cat.png", "89504e470d0a1a0a0a0b0c"]}, {"bg_color": None, "bg_image": ["plain.png", "89504e470d0a1a0a0d0e0f"]}),
+    # image files named like other parts of a package
+    ({"bg_color": None, "bg_image": ["photo-index.zip", "89504e470d0a1a0a111213"]}, {"bg_color": None, "bg_image": ["Tile.iwa.png", "89504e470d0a1a0a141516"]}),
     # the same picture under two file names: two images of the document
     ({"bg_color": None, "bg_image": ["one.png", "89504e470d0a1a0a0102030405"]}, {"bg_color": None, "bg_image": ["two.png", "89504e470d0a1a0a0102030405"]}),
 ]
